@@ -163,7 +163,7 @@ class SyncedList(SyncedCollection, MutableSequence):
                     self._data[i] = self._from_base(data[i], parent=self)
 
                 if len(self._data) > len(data):
-                    self._data = self._data[: len(data)]
+                    del self._data[len(data) :]
                 else:
                     new_data = data[len(self) :]
                     if not _validate:
@@ -192,9 +192,8 @@ class SyncedList(SyncedCollection, MutableSequence):
         """
         data = _convert_numpy(data)
         if _sequence_resolver.get_type(data) == "SEQUENCE":
-            self._update(data)
-            with self._thread_lock:
-                self._save()
+            with self._overwrite_context():
+                self._update(data)
         else:
             raise ValueError(
                 "Unsupported type: {}. The data must be a non-string sequence or None.".format(
@@ -245,9 +244,8 @@ class SyncedList(SyncedCollection, MutableSequence):
             self._data.remove(self._from_base(data=value, parent=self))
 
     def clear(self):  # noqa: D102
-        self._data = []
-        with self._thread_lock:
-            self._save()
+        with self._overwrite_context(), self._suspend_sync:
+            self._data.clear()
 
     def __lt__(self, other):
         if isinstance(other, type(self)):
